@@ -49,7 +49,7 @@ def serde_limit(ctx, rep):
                 bad.append(b)
     import os
 
-    cargo = open(os.path.join(os.environ.get("VERIF_REPO", "/repo"), "Cargo.toml")).read()
+    cargo = open(os.path.join(getattr(ctx, "repo_root", "/repo"), "Cargo.toml")).read()
     if "unbounded_depth" in cargo:
         rep.bad("R-REC", "R-REC:serde_json:unbounded_depth", "Cargo.toml", "serde_json feature unbounded_depth enabled: Hayson nesting is no longer bounded")
     for b in bad:
